@@ -129,6 +129,27 @@ def _run(prop, tier, prof, replay_path, t0, sd, work):
             log(f"[{prop}] model invariant {verify['violated']} violated; replaying the "
                 f"counterexample ({len(verify['cex_ops'])} steps) on the real tree")
             raw.append(verify["cex_ops"])
+        # 1b. design level, key-value separation (LsmBlobModel): the fragmentation map stays
+        # exact, no retained version has a dangling pointer, blob file ids stay fresh
+        if tp.get("blob_model"):
+            bm = tp["blob_model"]
+            bver = vlib.tlc_verify(prop, bm["constants"], bm["invariants"], work,
+                                   workers=bm.get("workers", 8), timeout=bm.get("timeout", 900),
+                                   module="MC_blob.tla", view="ViewBlob", spec="BSpec")
+            log(f"[{prop}] blob model: {bver.get('distinct')} distinct states, "
+                f"{bver.get('generated')} transitions, ok={bver.get('ok')} ({bver['wall_s']}s)")
+            verify["blob_model"] = {k: bver.get(k) for k in
+                                    ("distinct", "generated", "depth", "ok", "violated", "wall_s",
+                                     "timeout", "constants")}
+            verify["blob_model"]["invariants"] = bm["invariants"]
+            if bver.get("violated"):
+                if not bver.get("cex_ops"):
+                    log(bver.get("counterexample", ""))
+                    raise vlib.ToolError(f"blob model invariant {bver['violated']} violated and "
+                                         "the counterexample could not be extracted")
+                log(f"[{prop}] blob model invariant {bver['violated']} violated; replaying the "
+                    f"counterexample ({len(bver['cex_ops'])} steps) on the real tree")
+                raw.append(bver["cex_ops"])
         # 2. generate behaviours
         driven = []
         for g in tp["gen"]:
@@ -172,6 +193,12 @@ def _run(prop, tier, prof, replay_path, t0, sd, work):
                 with open(os.path.join(vlib.VERIF, f["example_replay"])) as fh:
                     behaviours.append(json.load(fh)["behaviour"])
 
+    # the key alphabet of the run covers every behaviour (regression behaviours recorded by
+    # another check may use more keys than this profile generates)
+    for b in behaviours:
+        for op in flatten_ops(b["ops"]):
+            if isinstance(op.get("k"), int):
+                nkeys = max(nkeys, op["k"])
     # 3. replay on the real tree
     trace, summary = vlib.harness_replay(behaviours, work, prop, nkeys, prof.get("harness_args", []))
     log(f"[{prop}] replayed {summary} t={round(time.time()-t0)}s")
@@ -225,6 +252,7 @@ def _run(prop, tier, prof, replay_path, t0, sd, work):
         "model_exhaustive_within_bounds": bool(verify and verify.get("ok") and not verify.get("timeout")),
         "model_constants": (verify or {}).get("constants"),
         "model_invariants": list(prof["invariants"]),
+        "blob_model": (verify or {}).get("blob_model"),
         "traces_validated_against_impl": len(behaviours),
         "trace_steps_validated": lines,
         "evaluations": steps,
@@ -248,6 +276,10 @@ def _run(prop, tier, prof, replay_path, t0, sd, work):
         print(f"KNOWN-FINDING: property={prop} {kf['summary']}")
     for fid in sorted(tlc_known):
         print(f"KNOWN-FINDING: property={prop} {fid}: {listed[fid]['summary']}")
+    bmv = ((verify or {}).get("blob_model") or {}).get("violated")
+    if bmv and not reported and not known_hits:
+        raise vlib.ToolError(f"blob model invariant {bmv} is violated but the real tree does not "
+                             "show it: the model misrepresents the code")
     if verify and verify.get("violated") and not reported and not known_hits:
         raise vlib.ToolError(f"model invariant {verify['violated']} is violated but the real tree "
                              "does not show it: the model misrepresents the code")
